@@ -12,7 +12,8 @@ tier = 'thorough' if '--thorough' in sys.argv else 'quick'
 sd = os.path.abspath(args[0])
 meta = json.load(open(os.path.join(sd, 'meta.json')))
 prop = meta['property']
-props = [prop] + [a for a in args[1:]]
+props = [prop] + [a for a in meta.get('also_check', []) + args[1:] if a != prop]
+props = list(dict.fromkeys(props))
 name = os.path.basename(sd.rstrip('/'))
 scr = tempfile.mkdtemp(prefix='mofun_scratch.')
 out = tempfile.mkdtemp(prefix='mofun_out.')
